@@ -14,7 +14,8 @@ RULE = ("(1) exhaustive introspection: every object of pdpy11.insns.instructions
         "(8 modes x 8 registers with rN/sp/pc/%n/@rN/@(rN) spellings, X(rN), @X(rN), #X, @#X, relative, relative deferred, "
         "forward-referenced %sym and X, acN, inline numbers and branch targets at their limits) per operand position, plus forms "
         "that must be refused (%8, ac4/ac5 in a 2-bit field, values beyond 16 bits / the inline field, wrong operand class or count), "
-        "at several link addresses incl. the top of memory; plus a near-miss-name stream (labels/constants whose names start with or contain a "
+        "at several link addresses incl. the top of memory; plus bare numeric local labels as branch/sob targets whose octal and decimal readings differ (10 17 20 77 100 010 12 8 15 64) with a decoy "
+        "label carrying the other reading; plus a near-miss-name stream (labels/constants whose names start with or contain a "
         "register/accumulator name -- ac1buf ac10 ac5x ac ac6 r0x r8 r10 spx pcx sp1 xr0, both cases -- used as relative, @relative, #, @#, "
         "index base and parenthesised operands of CPU and FP11 instructions in every operand position: Spec says ordinary symbol), the same "
         "with symbols/labels named exactly ac0..ac5 (both cases, defined before/after/as label) in every operand position of CPU "
@@ -22,7 +23,8 @@ RULE = ("(1) exhaustive introspection: every object of pdpy11.insns.instructions
         "and .word/.byte (value) and a "
         "`.repeat N { insn }` stream with compound index expressions (a+b(Rn), @a+b(Rn), -a(Rn), ^Cx(Rn)) where every copy is judged, and address-dependent operands inside .repeat (relative, @relative, branch, sob to labels outside the "
         "block before/after it, absolute numbers, symbols, .+-k; counts 2..4, nested .repeat, a nop before the instruction, a body whose "
-        "length varies between copies through .even) where every copy is judged at the address its bytes occupy in the image; quick tier: each form of each position once with a seeded partner, "
+        "length varies between copies through .even; also immediate / absolute / index / inline-number operand expressions through / % << _ on "
+        "<.-label>, which take a different value in every copy) where every copy is judged at the address its bytes occupy in the image; quick tier: each form of each position once with a seeded partner, "
         "thorough tier: full cross product of the canonical spellings for two-operand mnemonics. "
         "Each case carries the implementation's outcome and words; Coq judges correspondence (model = implementation) and the "
         "property (Spec.decode of the implementation's words = Spec.expect of the line, all words consumed; a line without "
@@ -306,7 +308,10 @@ def repeat_cases(intro, rng, tier):
 # address-dependent operands inside .repeat: every copy is judged at the address where its bytes lie in the image
 REPEAT_ATOMS = [("clr", "R"), ("tst", "@R"), ("jmp", "R"), ("mov", "R,r"), ("mov", "#,R"), ("mov", "r,@R"), ("cmp", "R,R"), ("add", "X,@R"),
                 ("jsr", "reg,R"), ("xor", "reg,@R"), ("mul", "R,reg"), ("ldf", "R,ac"), ("stf", "ac,@R"), ("tstf", "R"), ("ldexp", "R,ac"),
-                ("push", "R"), ("pop", "@R"), ("call", "R"), ("br", "B"), ("bne", "B"), ("bcs", "B"), ("blos", "B"), ("sob", "reg,B")]
+                ("push", "R"), ("pop", "@R"), ("call", "R"), ("br", "B"), ("bne", "B"), ("bcs", "B"), ("blos", "B"), ("sob", "reg,B"),
+                # operand EXPRESSIONS through non-pure operators (/ % << _) on something that depends on `.`: a different value in every copy
+                ("mov", "#E,r"), ("add", "#E,R"), ("mov", "@#E,r"), ("clr", "XE"), ("cmp", "r,#E"), ("emt", "NE"), ("trap", "NE"), ("sys", "NE")]
+EXPR_OPS = [("/2", lambda v: v // 2), ("%10", lambda v: v % 8), ("<<2", lambda v: v * 4), ("_1", lambda v: v * 2), ("/2+1", lambda v: v // 2 + 1), ("*3/2", lambda v: v * 3 // 2)]
 REPEAT_BODIES = ["plain", "nop-before", "even-varying", "nested", "nested-nop"]
 
 
@@ -351,7 +356,7 @@ def repeat_addr_cases(intro, rng, tier):
                 n = rng.choice([2, 3, 4])
                 m2 = rng.choice([2, 3])
                 parts = shape.split(",")
-                nwords = 1 + sum(1 for q in parts if q in ("R", "@R", "#", "X"))
+                nwords = 1 + sum(1 for q in parts if q in ("R", "@R", "#", "X", "#E", "@#E", "XE"))
                 ilen = 2 * nwords
                 offs, end = repeat_positions(body, p, n, m2, ilen)
                 end += end % 2
@@ -386,6 +391,17 @@ def repeat_addr_cases(intro, rng, tier):
                             if m == "sob":
                                 k = rng.choice([0, 2, -2])
                             texts.append(at + ("." if k == 0 else (".+%s" % IC.num(k) if k > 0 else ".-%s" % IC.num(-k)))); mk.append(lambda a, c=ctor, k=k: (c, a + k))
+                    elif q in ("#E", "@#E", "XE", "NE"):
+                        optxt, fn = rng.choice(EXPR_OPS[:2] if q == "NE" else EXPR_OPS)
+                        e = "<.-out1>" + optxt
+                        if q == "#E":
+                            texts.append("#" + e); mk.append(lambda a, fn=fn: ("OImm", fn(a - base)))
+                        elif q == "@#E":
+                            texts.append("@#" + e); mk.append(lambda a, fn=fn: ("OAbs", fn(a - base)))
+                        elif q == "XE":
+                            r = rng.randrange(7); texts.append("%s(%s)" % (e, IC.REGNAMES[r])); mk.append(lambda a, fn=fn, r=r: ("OIndex", fn(a - base), r))
+                        else:
+                            texts.append(e); mk.append(lambda a, fn=fn: ("ORel", fn(a - base)))
                     elif q == "r":
                         r = rng.randrange(6); texts.append("(%s)+" % IC.REGNAMES[r]); mk.append(lambda a, r=r: ("OAutoInc", r))
                     elif q == "#":
@@ -410,6 +426,50 @@ def repeat_addr_cases(intro, rng, tier):
                     c.off, c.ilen, c.total = off, ilen, total
                     c.src = src
                     cases.append(c)
+    return cases
+
+
+# bare numeric local labels as branch / sob targets: the label is the one whose NAME is the written digits;
+# a decoy label carries the other (octal/decimal) reading of the same digits
+NUM_LABELS = [("10", "8"), ("17", "15"), ("20", "16"), ("77", "63"), ("100", "64"), ("010", "8"), ("12", "10"), ("8", "10"), ("15", "17"), ("64", "100")]
+
+
+def numlabel_cases(intro, rng, tier):
+    cases = []
+    for m, _pat, stubs in intro:
+        cl = [(st[0], st[3]) for st in stubs]
+        sob = cl == [("RegisterOperandStub", False), ("OffsetOperandStub", True)]
+        if not sob and cl != [("OffsetOperandStub", False)]:
+            continue
+        pairs = NUM_LABELS if tier == "thorough" else rng.sample(NUM_LABELS, 4)
+        for name, decoy in pairs:
+            for fwd in ((False,) if sob else (False, True)):
+                base = rng.choice([0o1000, 0o2000, 0o100000])
+                g, n = rng.choice([2, 4, 8]), rng.choice([0, 2, 6, 20])
+                reg = rng.randrange(8)
+                line = m + " " + (("r%d, " % reg) if sob else "") + name
+                blk = lambda k: (" .blkb " + IC.num(k)) if k else ""
+                decoy_first = rng.random() < 0.5
+                if not fwd:
+                    if decoy_first:
+                        lines, tgt, off = [decoy + ":" + blk(g), name + ":" + blk(n), line], base + g, g + n
+                    else:
+                        lines, tgt, off = [name + ":" + blk(g), decoy + ":" + blk(n), line], base, g + n
+                    total = off + 2
+                else:
+                    if decoy_first:
+                        lines, tgt = [line, decoy + ":" + blk(g), name + ":" + blk(2)], base + 2 + g
+                        total = 2 + g + 2
+                    else:
+                        lines, tgt = [line, ".blkb " + IC.num(n + 2), name + ":" + blk(g), decoy + ":"], base + 2 + n + 2
+                        total = 2 + n + 2 + g
+                    off = 0
+                forms = ([IC.Form(("OReg", reg), "r%d" % reg)] if sob else []) + [IC.Form(("ORel", tgt), name, key="num:%s/%s:%s" % (name, decoy, "fwd" if fwd else "back"))]
+                c = SlicedCase(m, forms, base + off)
+                c.kind = "numlabel"
+                c.off, c.ilen, c.total = off, 2, total
+                c.src = "\n".join([".link " + IC.octnum(base)] + lines) + "\n"
+                cases.append(c)
     return cases
 
 
@@ -459,7 +519,7 @@ def explore(rep, br, tier, seed):
     # (2) end to end
     cases = build_cases(intro, rng, tier)
     main_n = len(cases)
-    cases += near_miss_cases(intro, rng, tier) + repeat_cases(intro, rng, tier) + repeat_addr_cases(intro, rng, tier)
+    cases += near_miss_cases(intro, rng, tier) + repeat_cases(intro, rng, tier) + repeat_addr_cases(intro, rng, tier) + numlabel_cases(intro, rng, tier)
     IC.run_cases(cases)
     rep.count("e2e:near-miss-names", sum(1 for c in cases[main_n:] if c.kind.startswith("near")))
     rep.count("e2e:repeat-wrapped", sum(1 for c in cases[main_n:] if c.kind.startswith("repeat")))
@@ -487,7 +547,7 @@ def search(rep, br, tier, seed):
     try:
         intro = IC.introspect()
         cases = build_cases(intro, rng, "quick", big=(tier != "thorough"))
-        cases += near_miss_cases(intro, rng, "thorough") + repeat_cases(intro, rng, "thorough") + repeat_addr_cases(intro, rng, "thorough")
+        cases += near_miss_cases(intro, rng, "thorough") + repeat_cases(intro, rng, "thorough") + repeat_addr_cases(intro, rng, "thorough") + numlabel_cases(intro, rng, "thorough")
         IC.run_cases(cases)
         rep.add_eval(len(cases))
         n = judge_cases(rep, cases, "search")
